@@ -624,6 +624,12 @@ def gen_dh_history(rng, length):
             ops.append({"op": "dh_listing", "ws": rng.below(2), "kind": rng.choice(["types", "groups", "objects", "data"])})
         elif w == "reopen":
             ops.append({"op": "reopen"})
+    if groups and rng.chance(50):
+        # forced pattern: source re-opened (concatenated data not loaded), copied to the other workspace, then a listing
+        # getter (or a removal) runs on the SOURCE
+        g = new()
+        ops += [{"op": "reopen"}, {"op": "dh_copy", "id": g, "group": rng.choice(groups)}]
+        ops.append({"op": "dh_listing", "ws": 0, "kind": "types"} if rng.chance(60) or not data else {"op": "dh_rm", "e": rng.choice(data)})
     ops.append({"op": "reopen"})
     return ops
 
